@@ -3,7 +3,7 @@
 from lib.coqterm import cbytes, cbool, copt, clist, cpair, cN, cZ, hx, unhx
 
 ID = "C35"
-QUICK_N = 2000
+QUICK_N = 1500
 THOROUGH_N = 16000
 SHARD = 100
 COQ_PRELUDE = "From MV Require Import Model.Headers.\n"
